@@ -343,6 +343,16 @@ def edit_cases():
         b5 = copy.deepcopy(base)
         b5["teams"][1]["workers"][0]["solo"] = True
         out.append((base, b5, "worker-solo"))
+        b6 = copy.deepcopy(base)
+        b6["teams"][0]["workers"][0]["absence"] = [1]
+        out.append((base, b6, "worker-absence-inplace"))
+        b7 = copy.deepcopy(base)
+        b7["teams"][0]["workers"].append(b7["teams"][1]["workers"].pop(0))
+        out.append((base, b7, "move-worker"))
+        if not any(j == 2 for _, j, _ in links):
+            b8 = copy.deepcopy(base)
+            b8["links"] = list(links) + [[0, 2, "FS"]]
+            out.append((base, b8, "add-link"))
     return out
 
 
@@ -358,6 +368,14 @@ def apply_edit(m, name):
         m.byname["T2"].default_work_amount = 1.0
     elif name == "worker-solo":
         m.byname["W1"].solo_working = True
+    elif name == "worker-absence-inplace":
+        m.byname["W0"].absence_time_list.append(1)
+    elif name == "move-worker":
+        w = m.byname["W1"]
+        m.byname["TM1"].worker_list.remove(w)
+        m.byname["TM0"].add_worker(w)
+    elif name == "add-link":
+        m.byname["T2"].append_input_task(m.byname["T0"])
 
 
 def work_edits(chunk):
@@ -480,7 +498,7 @@ def run(tier, seed):
         "level": "model_checking",
         "rule": "schedule exploration: for every 3-task workflow over the four dependency kinds x works {1,2} x layouts x rules (thorough: also 4-task FS/FF/SS) and FAC models, ALL n! "
         "assignments of hash ranks to tasks (and all permutations for components), i.e. every iteration order of every internal set of tasks/components, complete dump compared with "
-        "the identity order (and all orders of worker hashes); histories on one object (simulate;simulate, simulate with other absence/auto arguments or log edits then simulate, backward_simulate with every flag pair then simulate), rebuilt models with the library's id()-hashed classes, edits of the model between two runs on one object (team targeting added/removed, skill, work amount, solo flag) compared with a freshly built edited model, contamination histories (activity on project A, then "
+        "the identity order (and all orders of worker hashes); histories on one object (simulate;simulate, simulate with other absence/auto arguments or log edits then simulate, backward_simulate with every flag pair then simulate), rebuilt models with the library's id()-hashed classes, edits of the model between two runs on one object (team targeting added/removed, skill, work amount, solo flag, absence list extended in place, worker moved to another team, dependency added) compared with a freshly built edited model, contamination histories (activity on project A, then "
         "default-argument simulate on a fresh project B, mutable defaults compared), and one sub-family in two fresh interpreters with different PYTHONHASHSEED; per-iteration-event deviations: with a set subclass injected into the library's modules, every single iteration "
         "event of a run is given every alternative order of that set (deviation bound 1) on 2-3 task models; "
         "non-trivial = distinct models with at least one dependency link (permutations) or explored history roots",
